@@ -93,6 +93,7 @@ type PipeSpec struct {
 	Outage5xx   int      `json:"outage_5xx"`   // origin host A answers 503 to its first Outage5xx requests, whatever the URL, and serves the site afterwards (a host that is down while its URLs are retried: consecutive 5xx, nothing in between) (C03)
 	StopBoundMs int      `json:"stop_bound_ms"` // > 0: controler.Stop() has this long to return, counted from the stop request; afterwards the run is given up (TimedOut, StopOverdue) without sitting out the rest of TimeoutMs (C03)
 	DiskLowMs   int      `json:"disk_low_ms"`  // after this many ms the job volume counts as full (--min-space-required raised): the real disk watcher pauses the pipeline at its next tick
+	StopAtDeadline bool `json:"stop_at_deadline,omitempty"` // the run's budget ends before any stop was requested (a stop point that is never reached and a crawl that does not come to rest in time): request the stop THEN and observe whether it returns, instead of giving the run up without a stop (C03; false = the behaviour before this field existed)
 	ExpectReports int    `json:"expect_reports"` // > 0: quiescence is only decided once the QUEUE has been seen holding a finish report (event lq.report) for this many of the rows of LQRows - or nothing at all has moved for 25 s (0 = not waited for, the behaviour before this field existed)
 	LogFile     bool     `json:"log_file"`     // file logging ON (the crawler's default; every other run of this harness switches it off): the REAL log.Start() of controler.Start() opens <job>/logs/...
 	LogRotation string   `json:"log_rotation"` // --log-file-rotation (a Go duration, "" = never): the real rotation worker re-opens the log file every period
@@ -122,6 +123,7 @@ type PipeResult struct {
 	Events        int            `json:"events"`
 	PausedAtStop  bool           `json:"paused_at_stop"`
 	QuiescentAtMs int64          `json:"quiescent_at_ms"`
+	BudgetStop    bool           `json:"budget_stop,omitempty"` // the stop was requested because the run's budget ended (StopAtDeadline)
 	StopOverdue   bool           `json:"stop_overdue,omitempty"` // StopBoundMs ran out before controler.Stop() returned
 	FDKinds       map[string]int `json:"fd_kinds,omitempty"` // Footprint runs: the descriptors counted in FDs by what they point to (log, warc, temp, db, sock, pipe, other)
 	HeapMB        int            `json:"heap_mb,omitempty"`  // Footprint runs: heap in use and completed collections when the footprint was read (informative: with NoGC, NumGC == 0 says that no finalizer can have closed anything)
@@ -517,6 +519,7 @@ func runPipeChild(specPath string) {
 	}
 	tick := time.NewTicker(25 * time.Millisecond)
 	stopRequested := false
+	budgetStop := false
 loop:
 	for {
 		select {
@@ -531,6 +534,12 @@ loop:
 			}
 			break loop
 		case <-deadline:
+			if sp.StopAtDeadline && !res.StopCalled && !stopRequested {
+				res.BudgetStop, budgetStop, stopRequested = true, true, true
+				evlog.write("stop.budget")
+				doStop()
+				break loop
+			}
 			res.TimedOut = true
 			res.IdleAtTimeout = time.Since(time.Unix(0, lastEvent.Load())).Milliseconds()
 			res.TableAtTimeout = len(reactor.GetStateTable())
@@ -598,7 +607,7 @@ loop:
 			}
 		}
 	}
-	if res.StopCalled && !res.StopReturned && !res.StopOverdue {
+	if (res.StopCalled || budgetStop) && !res.StopReturned && !res.StopOverdue {
 		select {
 		case <-stopDone:
 		case <-stopOverdue:
